@@ -133,6 +133,24 @@ theorem run_unsliced (hWF : P.WF) (hrun : run P bs = .ok st) {a : Agg X S Rv} (h
   · simp [he, Mergeable.feed]
   · simp [he, Mergeable.feed]
 
+/-- the row batches slicer `sl` feeds to slice key `k` of aggregate `a` for one batch — a function of
+the aggregate, the slicer and the batch only -/
+def slicerFeeds (a : Agg X S Rv) (sl : Slicer) (k : SliceKey) (b : Batch) : List (List X) :=
+  match planSlicer a b sl with
+  | .ok us => feedsTo ⟨a.out, k⟩ us
+  | .error _ => []
+
+theorem map_eq_of_mapE {α β γ : Type} {f : α → Except ErrKind β} (F : β → γ) (G : α → γ) :
+    ∀ {xs : List α} {ys : List β}, mapE f xs = .ok ys → (∀ x y, f x = .ok y → F y = G x) →
+      ys.map F = xs.map G := by
+  intro xs
+  induction xs with
+  | nil => intro ys h _; simp only [mapE] at h; cases h; rfl
+  | cons x xs ih =>
+    intro ys h hFG
+    obtain ⟨y, ys', hx, hxs, rfl⟩ := mapE_cons_ok h
+    simp [hFG x y hx, ih hxs hFG]
+
 /-- **Sliced entry**: the entry under `(a.out, k)` — `k` a key of slicer `sl` — is absent if no batch
 yields `k`, and otherwise one accumulator fed, pair by pair, the masked inputs of every
 `(k, masks)` pair the slicer yields (`sliceRows`, batch by batch). -/
@@ -141,7 +159,8 @@ theorem run_sliced (hWF : P.WF) (hrun : run P bs = .ok st) {a : Agg X S Rv} (ha 
     (hk : k.features = sl.name) :
     ∃ fedss feeds, mapE (sliceRows a sl k) bs = .ok fedss ∧ feeds.flatten = fedss.flatten ∧
       AList.get? st ⟨a.out, k⟩ = (if feeds = [] then none else some (a.m.feed feeds)) ∧
-      (feeds ≠ [] ↔ ∃ b ∈ bs, k ∈ sliceKeysOf sl b) := by
+      (feeds ≠ [] ↔ ∃ b ∈ bs, k ∈ sliceKeysOf sl b) ∧
+      feeds = (bs.map (slicerFeeds a sl k)).flatten := by
   obtain ⟨uss, hps, rfl⟩ := run_ok hrun
   let mk : MetricKey := ⟨a.out, k⟩
   have hkne : k ≠ SliceKey.none := by
@@ -152,8 +171,16 @@ theorem run_sliced (hWF : P.WF) (hrun : run P bs = .ok st) {a : Agg X S Rv} (ha 
     obtain ⟨us1, hps1, he1⟩ := planAgg_sliced hWF.names_nodup hWF.names_ne hpa hns hsl hk
     rw [show feedsTo mk us = feedsTo ⟨a.out, k⟩ us from rfl, he, he1]
     exact planSlicer_sliceRows hps1 k
+  have hb2 : ∀ b us, plan P b = .ok us → feedsTo mk us = slicerFeeds a sl k b := by
+    intro b us hp
+    obtain ⟨us0, hpa, he⟩ := plan_feedsTo hWF.outs_map_nodup hp ha k
+    obtain ⟨us1, hps1, he1⟩ := planAgg_sliced hWF.names_nodup hWF.names_ne hpa hns hsl hk
+    rw [show feedsTo mk us = feedsTo ⟨a.out, k⟩ us from rfl, he, he1]
+    unfold slicerFeeds; rw [hps1]
   refine ⟨uss.map (fun us => (feedsTo mk us).flatten), feedsTo mk uss.flatten,
-    mapE_map_ok hb hps, ?_, ?_, ?_⟩
+    mapE_map_ok hb hps, ?_, ?_, ?_, ?_⟩
+  rotate_left 3
+  · rw [feedsTo_flatten, map_eq_of_mapE (feedsTo mk) (slicerFeeds a sl k) hps hb2]
   · rw [feedsTo_flatten, ← flatten_map_flatten, List.map_map]; rfl
   · rw [get?_foldl_apply a.m mk _ _ (m_of_key_all hWF hps ha _), get?_createState_sliced P _ _ hkne]
     by_cases he : feedsTo mk uss.flatten = []
